@@ -507,6 +507,7 @@ def rule_SIB(FA):
                     out.append(Inst('R-SIB', key, 'ok', f['span'], 'same validation atoms as its siblings', props,
                                     nontrivial=bool(v), sample={'atoms': list(v)}))
                 else:
+                    key = key + '|' + '; '.join(sorted(set(v or ()) ^ set(best)))
                     out.append(Inst('R-SIB', key, 'violation', f['span'],
                                     'validates differently from its siblings: accepts under {%s}; %s::%s accepts under {%s}' % (
                                         '; '.join(v) if v is not None else '<no accepting return>',
@@ -543,6 +544,21 @@ def _unwrap_of(t):
     if isinstance(t, tuple) and t and t[0] == 'call' and t[1].split('::')[-1] in ('unwrap', 'expect', 'unwrap_unchecked') and len(t[2]) >= 1:
         return t[2][0]
     return None
+
+
+def canon_opt(t):
+    """Canonical form of "the payload of an Option": unwrap(x), `x?` and `if let Some(v) = x` agree."""
+    if isinstance(t, tuple) and t:
+        if t[0] == 'call' and t[1].split('::')[-1] in ('unwrap', 'expect', 'unwrap_unchecked') and len(t[2]) >= 1:
+            return ('payload', canon_opt(t[2][0]))
+        if t[0] == 'field' and t[2] == '0' and isinstance(t[1], tuple) and t[1] and t[1][0] == 'variant':
+            inner = t[1][1]
+            if t[1][2] == 'Continue' and isinstance(inner, tuple) and inner and inner[0] == 'call' and inner[1].split('::')[-1] == 'branch' and inner[2]:
+                return ('payload', canon_opt(inner[2][0]))
+            if t[1][2] == 'Some':
+                return ('payload', canon_opt(inner))
+        return tuple(canon_opt(x) for x in t)
+    return t
 
 
 def twin_pairs(FA):
@@ -604,7 +620,7 @@ def rule_TW(FA):
                 sites = accept_sites(FA, F)
                 helper_calls = [norm(F.call_term(t)) for k, bi, t in sites if k == 'deleg']
                 inner = _unwrap_of(uret_m)
-                if inner is not None and helper_calls and all(h == inner for h in helper_calls):
+                if inner is not None and helper_calls and all(canon_opt(h) == canon_opt(inner) for h in helper_calls):
                     shapes.add('iii')
                     bad = []
                 elif inner is not None and _is_call_to(inner, m['name'], pm):
